@@ -203,7 +203,7 @@ func gen(r *Rand, thor bool) Case {
 	return k
 }
 
-const maxSamples = 1600 // the extracted model is slow: larger cases are skipped and counted
+const maxSamples = 6400 // larger cases are skipped for the model and counted (none at sizes <= 40x40x4)
 
 func sig(prefix string, k Case, site string) string {
 	sg := "u"
@@ -214,7 +214,7 @@ func sig(prefix string, k Case, site string) string {
 }
 
 func runPipe(c *Ctx) {
-	c.R.Rule = "composed single-tile reversible path (1 layer, default precincts, style 0): random configurations, sizes 1..40 (tiny, around code-block multiples, strips, grid), comps 1-4, P 1-16, signed, levels 0-6, cb 4..64 (area <= 4096), 5 progressions, MCT; content noise/extremes/ramp/const/sparse/checker/low-pass-sign; cases above 1600 samples are skipped for the model and counted; non-trivial = more than one sample and not constant"
+	c.R.Rule = "composed single-tile reversible path (1 layer, default precincts, style 0): random configurations, sizes 1..40 (tiny, around code-block multiples, strips, grid), comps 1-4, P 1-16, signed, levels 0-6, cb 4..64 (area <= 4096), 5 progressions, MCT; content noise/extremes/ramp/const/sparse/checker/low-pass-sign; compared: tile bytes (SOD..EOC), whole codestream, decoded pixels; cases above 6400 samples would be skipped for the model and counted; non-trivial = more than one sample and not constant"
 	n := c.N(400, 6000)
 	rng := c.Rng.Fork()
 	cases := make([]Case, 0, n)
@@ -287,6 +287,8 @@ func runPipe(c *Ctx) {
 		c.R.Count("pipe.model_compared")
 		mEnc := c.M.Call("pipe_encode", k.Args(Hex(src))...)
 		c.CorrEq("pipe_encode", sig("pipe", k, "encode"), mEnc, "ok:"+Hex(tile), k)
+		mCS := c.M.Call("pipe_encode_cs", k.Args(Hex(src))...)
+		c.CorrEq("pipe_encode_cs", sig("pipe", k, "codestream"), mCS, "ok:"+Hex(enc), k)
 		mDec := c.M.Call("pipe_decode", k.Args(Hex(tile))...)
 		c.CorrEq("pipe_decode", sig("pipe", k, "decode"), mDec, "ok:"+Hex(out), k)
 	})
